@@ -1461,6 +1461,9 @@ func (a *analysis) classify(g *global, uses []use) {
 		g.Evidence = "written after initialisation: " + strings.Join(writes, ", ")
 		if len(unguarded) > 0 {
 			g.Evidence += "; unguarded accesses: " + strings.Join(uniq(unguarded), ", ")
+			if len(guards) > 0 {
+				g.Evidence = "PARTIALLY GUARDED (= not guarded): some accesses are inside a critical section, others are outside it; " + g.Evidence
+			}
 		} else {
 			g.Evidence += "; the critical sections use different mutexes"
 		}
